@@ -92,6 +92,11 @@ def _app_catch_all(ex, st, post, result):
         if a0 == 'not found':
             g3 = z3.And(g3, eq(r.kwargs.get('status'), VInt(404)), eq(r.kwargs.get('mimetype'), VStr('text/plain')))
     yield ('unknown_path_is_404', g3, "unknown paths are answered 'not found', text/plain, 404")
+    # whatever response object was chosen is what is sent: called with (environ, start_response)
+    sent = T.evs(st, 'resp')
+    ok = len(sent) == 1 and len(sent[0][1].args) == 2 and sent[0][1].args[0] is post.env['environ'] and result is sent[0][1].result
+    yield ('response_object_is_sent', z3.BoolVal(bool(ok)),
+           'the WSGI answer is resp(environ, start_response) of the response chosen above (handler result, 500, welcome or 404)')
 
 
 contract('mapproxy.wsgiapp:MapProxyApp.__call__', props=['C18'],
@@ -101,7 +106,8 @@ contract('mapproxy.wsgiapp:MapProxyApp.__call__', props=['C18'],
                       'welcome_response': {'pure': True}, 'match': {'returns': 'opt[opaque]', 'pure': True}, 'group': {'pure': True},
                       'local_base_config': {'pure': True}, 'Request': {'pure': True}, 'print_exc': {'pure': True}, 'get': {'pure': True}},
          opaque=['Response', 'welcome_response', 'escape_html'],
-         raises={'Exception': True},
+         # an exception of a service handler leaves the application only in debug mode
+         raises={'Exception': 'self.base_config.debug_mode'},
          loops={0: dict(inv=[], types={'req': 'opaque'})},
          trace=[_app_catch_all])
 
